@@ -10,7 +10,12 @@ Import ListNotations.
 Open Scope Z_scope.
 
 Definition kernel_ok (k : kernel) : Prop := forall c v, k c = Some v -> hex6_b v = true.
-Definition kernel_total (k : kernel) : Prop := forall c, exists v, k c = Some v.
+(* the colours a kernel is ever asked about: six hexadecimal digits
+   (get_opposite_color, AdjustBrightness) or an ANSI colour name with an RGB
+   value (AdjustBrightness) - the set the thorough sweep covers on the real code *)
+Definition kernel_dom (c : str) : bool :=
+  hex6_b c || match assoc c ansi_colors_to_rgb with Some _ => true | None => false end.
+Definition kernel_total (k : kernel) : Prop := forall c, kernel_dom c = true -> exists v, k c = Some v.
 
 Lemma opposite_names_table :
   forallb (fun kv : str * str => mem_str (snd kv) ansi_color_names) opposite_ansi_names = true.
@@ -163,7 +168,7 @@ Proof.
   exists [], [102; 103; 58; 100; 101; 102; 97; 117; 108; 116]. eexists.
   split; [vm_compute; reflexivity|]. split.
   - intros c v H. inversion H. reflexivity.
-  - split; [intros c; eexists; reflexivity|]. split; vm_compute; reflexivity.
+  - split; [intros c _; eexists; reflexivity|]. split; vm_compute; reflexivity.
 Qed.
 
 (* with valid brightness bounds and well-formed default colours every
@@ -189,7 +194,8 @@ Proof.
   cbn [orb] in Hc. destruct (mem_str s ansi_color_names) eqn:E3.
   - exfalso. assert (X : forallb (fun n => match assoc n opposite_ansi_names with Some _ => true | None => false end) ansi_color_names = true) by (vm_compute; reflexivity).
     apply mem_str_In in E3. pose proof (proj1 (forallb_forall _ _) X _ E3) as Y. cbv beta in Y. rewrite E2 in Y. discriminate.
-  - cbn [orb] in Hc. rewrite Hc. destruct (Ht s) as [v Hv]. rewrite Hv. eauto.
+  - cbn [orb] in Hc. rewrite Hc.
+    destruct (Ht s ltac:(unfold kernel_dom; rewrite Hc; reflexivity)) as [v Hv]. rewrite Hv. eauto.
 Qed.
 
 Lemma names_have_rgb :
@@ -207,13 +213,14 @@ Proof.
   apply andb_prop in Hfg. destruct Hfg as [Hfg Hnd]. apply andb_prop in Hfg. destruct Hfg as [Hnn Hna].
   apply negb_true_iff in Hnn, Hnd.
   destruct (assoc s ansi_colors_to_rgb) eqn:E1.
-  - destruct (Ht s) as [v Hv]. rewrite Hv. eauto.
+  - destruct (Ht s ltac:(unfold kernel_dom; rewrite E1; apply orb_true_r)) as [v Hv]. rewrite Hv. eauto.
   - cbn [color_ok] in Hc. rewrite Hnn, Hnd in Hc. cbn [orb] in Hc.
     destruct (mem_str s ansi_color_names) eqn:Em.
     + exfalso. apply mem_str_In in Em.
       pose proof (proj1 (forallb_forall _ _) names_have_rgb _ Em) as Y. cbv beta in Y.
       rewrite E1 in Y. discriminate.
-    + cbn [orb] in Hc. rewrite Hc. destruct (Ht s) as [v Hv]. rewrite Hv. eauto.
+    + cbn [orb] in Hc. rewrite Hc.
+      destruct (Ht s ltac:(unfold kernel_dom; rewrite Hc; reflexivity)) as [v Hv]. rewrite Hv. eauto.
 Qed.
 
 Theorem transform_total : forall opp adj, kernel_ok opp -> kernel_total opp -> kernel_ok adj -> kernel_total adj ->
